@@ -418,7 +418,22 @@ def r5(ctx):
         ctx.check("R02.5", "flatten-flag:" + l.split("::")[-1], bool(okf) and seen == {True, False}, "flatten-handling", c.loc(f2), "post is flattened iff self.flatten; pre never")
 
 
+def maxpool_extent(ctx):
+    """the number of pooling windows per axis (what the forward walk visits and stores) equals floor((in - kernel) / stride) + 1, the announced
+    extent: C08's R08.1 facts for Maxpool re-run under this property (an output with an extra, never written row is not the max of any window)"""
+    from . import c08
+    sub = type(ctx)(ctx.prop, ctx.facts)
+    sub.guard("R08.1", "announced-vs-produced", c08.r1, sub)
+    mine = [o for o in sub.obligations if o["instance"].startswith("Maxpool:") or o["status"] == "unestablished"]
+    bad = [o for o in mine if o["status"] != "ok" and o["instance"].startswith(("Maxpool:height", "Maxpool:width", "Maxpool:buffer"))]
+    for o in bad:
+        ctx.bad("R02.1", "maxpool:" + o["instance"].split(":", 1)[1], o["key"].split("/", 3)[-1], o["where"], o["detail"])
+    ctx.check("R02.1", "maxpool:output-extent", not bad and len([o for o in mine if o["instance"].startswith("Maxpool:")]) >= 3, "maxpool-extent", "src/maxpool.rs",
+              "windows visited = floor((in - kernel)/stride) + 1 per axis = announced output extent")
+
+
 def run(ctx):
+    ctx.guard("R02.1", "maxpool-extent", maxpool_extent, ctx)
     ctx.guard("R02.1", "operators", r1, ctx)
     from .c08 import padding_applied
     ctx.guard("R02.1", "padding", padding_applied, ctx, "R02.1")
